@@ -23,6 +23,12 @@ CLAIMED = {
  "C08": dict(technique=TECH,
   text="Every case of MC_Mix (which contains filters and predicates with suppressible and with non-suppressible failing conditions followed by erroring steps) and of the seeded random universe is observed with and without WithSilent; Trace_Exec checks on the pair of real observations: no silent result wraps ErrVerbose; a verbose success is reproduced identically; a suppressible verbose failure becomes no error (Query/First) or NULL unless established (Exists/Match) and the silent items are exactly those PathSem produces before the failure; non-suppressible classes are returned unchanged.",
   note=EXEC_NOTE, ref="DESIGN.md section 7 C08"),
+ "C09": dict(technique="explicit TLA+ specification (PathSem) model-checked by TLC for compositionality over all split points of a bounded chain universe; the same groups of executions replayed on the real code and judged by a TLC trace specification (spec/Trace_Group.tla); context templates judged by Trace_Exec",
+  text="MC_C09: TLC enumerates every chain of up to 2 (quick) / 3 (thorough) root-independent steps (16-step alphabet incl. subscripts, .**, filters on @, item methods, keyvalue) x all JSON trees up to 3 nodes x {lax, strict} and checks on PathSem, for every split point P | S, that Query(P S) is the concatenation over the items x of Query(P) of Query($ S, x), failing where the first of those fails, and that the same steps from a variable or a literal return what they return from $. The Go runner executes the same groups (the suffix on each REAL item of the prefix) and Trace_Group checks the relation on the real observations (keyvalue ids compared modulo base object, strict splits after .** excluded as the property says). Context templates -- constructs that rebind @ / last / leniency below .** , left through each of their exits (completed, early answer inside exists, suppressed failure, nothing found) and followed by a use of the outer binding -- are judged against PathSem, whose environment is passed down and cannot be disturbed.",
+  note=EXEC_NOTE + " A mismatch on a context template is attributed to C09 although it could in principle stem from another rule used by the template.", ref="DESIGN.md section 7 C09"),
+ "C10": dict(technique="explicit TLA+ specification (PathSem) model-checked by TLC for the filter law over a prefix x condition x document universe; the same groups of executions replayed on the real code and judged by a TLC trace specification (spec/Trace_Group.tla)",
+  text="MC_C10: TLC enumerates 6 (quick) / 12 (thorough) prefix paths x 102 filter conditions (comparisons of @, @.a, @[*], @.size() with literals of every type; exists; starts with; like_regex; && || !; is unknown; a nested filter; conditions failing suppressibly and non-suppressibly; conditions that look at $) x all JSON trees up to 2 / 3 nodes plus nested-array documents x {lax, strict}, rewrites each condition into a predicate check over the item (@ -> $, $ -> a variable) and checks on PathSem that P ? (C) is the order-preserving subsequence of P's (lax: once-unwrapped) items whose rewritten condition yields true, and that in strict mode consecutive filters equal the filter on their conjunction. The runner executes P ? (C), P and the rewritten condition on every REAL item and Trace_Group checks the same relation on the real observations (no item altered, duplicated or reordered; unknown and false dropped without aborting; non-suppressible errors abort).",
+  note=EXEC_NOTE + " Strict-mode prefixes containing .** are excluded from the rewriting law (the condition is evaluated leniently there, a fact found by model-checking the law on the specification).", ref="DESIGN.md section 7 C10"),
  "C14": dict(technique=TECH,
   text="MC_C14: TLC enumerates all arrays of length 0..3 (quick) / 0..4 (thorough) over {null, 1, \"x\", [2], {\"a\":1}}, arrays of negative / fractional / out-of-int32 numbers and non-arrays x subscript lists built from abstract bounds (integers and halves, last, last+-k, every ordered pair as a range, lists, non-numeric / multi-valued / missing / out-of-int32 bounds, bounds read from the document, nested subscripts) x {lax, strict} and checks PathSem against a positional oracle computed from the abstract bounds; the universe, with float64 and json.Number spellings of every document, is replayed on the real code and judged by Trace_Exec.",
   note=EXEC_NOTE, ref="DESIGN.md section 7 C14"),
